@@ -203,6 +203,9 @@ fn replay(cases: &str, pending: &str, stats_path: &str) {
                 if c["e"]["n6"].as_array().map(|a| a.len() == 63).unwrap_or(false) {
                     bump(&mut st, "inst|expect-last-resort-name");
                 }
+                if c["e"]["an"].as_array().map(|a| a.iter().any(|x| x[1] == json!(cps("Unknown")))).unwrap_or(false) {
+                    bump(&mut st, "inst|expect-unknown-axis-name");
+                }
             }
         }
     }
